@@ -28,7 +28,8 @@ ASSUMPTIONS = [
 
 ATOMS_FULL = [["disp", "str"], ["disp", "list"], ["disp", "tag"], ["disp", "none"], ["disp", "ellipsis"],
               ["disp", "repr"], ["disp", "set"], ["disp", "dict"], ["raise"], ["reenter", "self"],
-              ["reenter", "outer"], ["disp", "xr"], ["disp", "dep"], ["inspect-active"], ["rebind-children"]]
+              ["reenter", "outer"], ["disp", "xr"], ["disp", "dep"], ["inspect-active"], ["rebind-children"],
+              ["render-ok"], ["render-fail"]]
 ATOMS_RED = [["disp", "str"], ["disp", "set"], ["raise"], ["reenter", "outer"], ["disp", "repr"],
              ["inspect-active"], ["rebind-children"]]
 
@@ -53,10 +54,31 @@ class Run:
         self.n_events = 0
         self.n_effects = 0
         self.reused = set()
+        self.tag_source = "fresh"
 
     def new_tag(self):
         from htmltools import Tag
         t = Tag("div", id=f"t{len(self.tags)}")
+        src = self.tag_source
+        if src != "fresh":
+            # the block's tag was obtained from another tag: by copying, pickling, expanding, or it is a
+            # tag that has been rendered / copied / compared before
+            import copy as _copy
+            import pickle as _pickle
+            if src == "copy":
+                t = _copy.copy(t)
+            elif src == "deepcopy":
+                t = _copy.deepcopy(t)
+            elif src == "pickle":
+                t = _pickle.loads(_pickle.dumps(t))
+            elif src == "tagify":
+                t = t.tagify()
+            elif src == "child-of-deepcopy":
+                t = _copy.deepcopy(Tag("section", t)).children[0]
+            elif src == "used-before":
+                str(t), t.render(), _copy.copy(t), t == Tag("div"), t.tagify()
+            else:
+                raise ValueError(src)
         self.tags[id(t)] = t
         self.exp_children[id(t)] = []
         return t
@@ -135,6 +157,27 @@ def run_body(body, stack, R: Run):
                 t.render()
                 if sys.displayhook is not before:
                     raise Viol("inspect:hook-changed", "rendering / copying the active tag changed sys.displayhook")
+        elif k in ("render-ok", "render-fail", "doc-render-fail"):
+            # an unrelated tree is rendered while the block is active (as a custom tagify() or a logging call
+            # would do); in the failing variants an object in that tree raises from tagify()
+            from htmltools import HTMLDocument, Tag, TagList
+            from ..spec import Boom as TagifyBoom, Tagif
+            before = sys.displayhook
+            kids_before = len(stack[-1].children) if stack else None
+            try:
+                if k == "render-ok":
+                    TagList("a", Tag("p", Tagif(["E", "b", False, [], [["T", "x"]]]))).render()
+                    str(Tag("div", Tagif(["L", [["T", "y"]]])))
+                elif k == "render-fail":
+                    Tag("div", "a", Tag("p", TagifyBoom())).render()
+                else:
+                    HTMLDocument(Tag("p", TagifyBoom())).render()
+            except RuntimeError:
+                pass
+            if sys.displayhook is not before:
+                raise Viol(f"{k}:hook-changed", "rendering another tree inside a block left sys.displayhook changed")
+            if stack and len(stack[-1].children) != kids_before:
+                raise Viol(f"{k}:children-changed", "rendering another tree inside a block added children to the block's tag")
         elif k == "raise":
             R.expected_fault = "Boom"
             R.n_effects += 1
@@ -225,8 +268,9 @@ class FalsyHook(list):
     __hash__ = None
 
 
-def run_program(prog, falsy_hook=False):
+def run_program(prog, falsy_hook=False, tag_source="fresh"):
     R = Run()
+    R.tag_source = tag_source
 
     def rec_fn(v):
         from htmltools import Tag
@@ -270,6 +314,13 @@ def fn(prog):
     R = run_program(prog)
     sig = (len(R.tags), len(R.rec), R.expected_fault)
     return (R.n_events >= 2 and R.n_effects >= 1, sig, R.viols, 1)
+
+
+def fn_source(case):
+    src, prog = case
+    R = run_program(prog, tag_source=src)
+    sig = (src, len(R.tags), len(R.rec), R.expected_fault)
+    return (R.n_events >= 1, sig, [(k + ":tag-from-" + src, m, d) for k, m, d in R.viols], 1)
 
 
 def fn_falsy(prog):
@@ -393,6 +444,17 @@ def plan(tier):
     out.append(dict(kind="space", name="raising-enclosing-hook", fn=fn_strict_hook,
                     space=Map(sh, lambda body: [["block", body]]),
                     note="one outer block (nested blocks inside) under an enclosing hook that raises when handed a tag"))
+    fa = bodies([["disp", "str"], ["render-fail"], ["doc-render-fail"], ["render-ok"], ["raise"], ["disp", "tag"]],
+                [3, 2] if tier != "quick" else [2, 2])
+    out.append(dict(kind="space", name="renders-that-fail-inside-a-block", fn=fn,
+                    space=Map(fa, lambda body: [["block", body]]),
+                    note="another tree is rendered while a block is active; an object in it raises from tagify(): the hook "
+                         "chain is intact and later displayed values still reach the block's tag"))
+    srcs = ["copy", "deepcopy", "pickle", "tagify", "child-of-deepcopy", "used-before"]
+    sb = bodies(ATOMS_RED[:5], [2, 1])
+    out.append(dict(kind="space", name="tags-obtained-by-copying", fn=fn_source,
+                    space=Prod(Const(srcs), Map(sb, lambda body: [["block", body]])),
+                    note=f"every block's tag comes from {srcs} instead of a constructor call"))
     out.append(dict(kind="space", name="falsy-outer-hook", fn=fn_falsy, space=Seq(top_ev, 0, 2),
                     note="sequences of <= 2 top-level events with a falsy callable object as the outermost hook"))
     return out
